@@ -57,7 +57,9 @@ def _parse_sse_event(lines: List[str]) -> SSEEvent:
             continue  # comment
         if ":" in line:
             field, value = line.split(":", 1)
-            value = value.lstrip()
+            # Per the SSE format only a single leading U+0020 after the colon is not part of the value
+            if value.startswith(" "):
+                value = value[1:]
             if field == "data":
                 data.append(value)
             elif field == "event":
